@@ -21,7 +21,16 @@ CFG = {
             "1024,70000} x 5 extractors x lengths {cap-2..cap+2, 2*cap, 64KiB+1} x framings {Content-Length, one "
             "chunk, all 1-byte chunks, a chunk boundary at every offset of a 16-byte window around the cap, a chunk "
             "ending at every offset of that window, seeded random}); live-macro (the #[endpoint] macro's "
-            "request_body_max_bytes argument). LARGE-SCOPE slice (deterministic, no seed; groups large-direct, large-live, "
+            "request_body_max_bytes argument); live-both-headers (requests carrying BOTH Content-Length and "
+            "Transfer-Encoding: chunked, the Content-Length line before / after the Transfer-Encoding line, its value "
+            "equal to the real length, smaller, larger within the cap, larger than the cap, 0, u64::MAX-2, u64::MAX-1, "
+            "u64::MAX, empty, 20 digits, not a number; plus chunk extensions (5;ext=1), a trailer section after the "
+            "last chunk, and all of these at once; bodies of 70, cap, cap+1, cap+30 bytes under 3 limit "
+            "configurations, all five extractors). Expectation: what hyper itself refuses (measured: a Content-Length "
+            "BEFORE Transfer-Encoding that is not a decimal u64 -> 400, above u64::MAX-2 -> 431, handler not entered) "
+            "is refused; every other shape is judged by the same spec and model on the bytes the chunked coding "
+            "carried, whatever the Content-Length says: a within-cap body refused or an over-cap body delivered is a "
+            "violation with that case as the replay. LARGE-SCOPE slice (deterministic, no seed; groups large-direct, large-live, "
             "large-abstract, large-cross; every dimension named in a tag large:...): the cap at every round size "
             "255/256/257, 1023/1024/1025, 4095/4096/4097, 8191/8192/8193, 16383/16384/16385, 65535/65536/65537 "
             "(as override above/below the default and as server default) with bodies of cap-1, cap, cap+1 bytes, "
@@ -61,6 +70,10 @@ CFG = {
         "concatenation is the body (checked per live run only through totals and checksums); in direct runs hyper "
         "is not involved: the frames are produced by the harness's own http_body::Body implementation wrapped "
         "with dropshot::Body::wrap",
+        "hyper 1.6 (library), requests with both Content-Length and Transfer-Encoding: chunked: the body is decoded as "
+        "chunked; a Content-Length line preceding the Transfer-Encoding line is validated (not decimal / overflow -> 400, "
+        "above u64::MAX-2 -> 431) and kept in the header map, one following it is dropped unread; chunk extensions "
+        "and the trailer section are consumed (http_layer_refuses in Run_C11.v, measured on every run)",
         "direct runs re-point the public fields of the handler's own RequestContext (endpoint.request_body_max_bytes, "
         "endpoint.body_content_type) and call <Extractor as ExclusiveExtractor>::from_request on it; rqctx.server is "
         "the real Arc<DropshotState> of a running server",
